@@ -399,6 +399,42 @@ func checkC03(c *Ctx) {
 		cases = append(cases, tcase{nTrees, "random long/" + shape, zr.Render(p, l), want})
 		nTrees++
 	}
+	// a program indented as a whole (every line shifted right by the same number of units): the
+	// lines of a block still share one indentation, the tree is the same
+	{
+		shifted := []tcase{}
+		seen := 0
+		for _, cs := range cases {
+			if !strings.HasPrefix(cs.layout, "canonical") || len(cs.src) > 3000 || strings.Contains(cs.layout, "long/") {
+				continue
+			}
+			unit := "\t"
+			if strings.Contains(cs.src, "\n    ") && !strings.Contains(cs.src, "\n\t") {
+				unit = "    "
+			}
+			lines := strings.Split(strings.TrimSuffix(cs.src, "\n"), "\n")
+			okc := true
+			for _, ln := range lines {
+				// (only renderings whose every line is a statement line: no text value or comment
+				// continued on the next line)
+				if strings.Count(ln, "“") != strings.Count(ln, "”") || strings.Count(ln, "「") != strings.Count(ln, "」") || strings.Contains(ln, "\r") {
+					okc = false
+				}
+			}
+			if !okc {
+				continue
+			}
+			for base := 1; base <= 2; base++ {
+				shifted = append(shifted, tcase{cs.tree, fmt.Sprintf("shifted-by-%d-units of canonical", base), strings.Repeat(unit, base) + strings.Join(lines, "\n"+strings.Repeat(unit, base)) + "\n", cs.want})
+			}
+			seen++
+			if seen >= c.Pick(150, 3000) {
+				break
+			}
+		}
+		cases = append(cases, shifted...)
+		c.Count("programs_shifted_as_a_whole", int64(len(shifted)))
+	}
 	reqs := make([]Req, len(cases))
 	for i, cs := range cases {
 		reqs[i] = parseReq([]rune(cs.src))
